@@ -100,6 +100,9 @@ class UserList : public UserInfo, public MappedFileReader {
  * The main loop handling requests from connected clients.
  */
 class MainLoop : public Thread {
+#ifdef EBUSD_VERIF
+  friend struct VerifAccess;  // verification harness access (no behaviour change)
+#endif
  public:
   /**
    * Construct the main loop and create bus handling components.
